@@ -144,7 +144,7 @@ pub fn check(v: &View) -> Vec<Violation> {
         for o in v.ops.iter().filter(|o| !o.ended()) {
             // waiting for the end of an actor that runs on, is still held by somebody (be it the
             // waiter itself) and was never asked to stop is not a hang, it is what was asked for
-            if matches!(o.inner, Op::Join { .. } | Op::JoinFinish | Op::DropThenJoin { .. } | Op::Await { .. } | Op::Take { .. }) {
+            if matches!(o.inner, Op::Join { .. } | Op::JoinFinish | Op::JoinPoll | Op::DropThenJoin { .. } | Op::Await { .. } | Op::Take { .. }) {
                 let ends = o.target.and_then(|t| v.actor_of(t)).is_some_and(|a| {
                     let t = o.target.unwrap();
                     a.dead.is_some()
@@ -230,6 +230,7 @@ pub fn op_name(o: &Op) -> &'static str {
         Op::JoinStart { .. } => "join_start",
         Op::JoinFinish => "join_finish",
         Op::JoinDiscard => "join_discard",
+        Op::JoinPoll => "join_poll",
         Op::Clone { .. } => "clone",
         Op::Downgrade { .. } => "downgrade",
         Op::Upgrade { .. } => "upgrade",
